@@ -33,6 +33,9 @@ func drawConfig(rt *rapid.T) cbConfig {
 		fallbackKind: rapid.IntRange(0, 2).Draw(rt, "fallback-kind"),
 		slowLogger:   rapid.IntRange(0, 2).Draw(rt, "slow-logger") == 0,
 	}
+	if cfg.slowLogger && !cfg.fine && rapid.IntRange(0, 2).Draw(rt, "log-sink-breaks-once") == 0 {
+		cfg.logPanicAt = rapid.IntRange(1, 40).Draw(rt, "log-call-that-panics")
+	}
 	if rapid.IntRange(0, 2).Draw(rt, "neighbour-breaker") == 0 {
 		cfg.neighbour, cfg.nbFallback, cfg.nbRecovery, cfg.nbTick = true, cfg.fallback, cfg.recovery, cfg.checkPeriod
 		if rapid.Bool().Draw(rt, "neighbour-has-its-own-periods") {
@@ -159,7 +162,7 @@ func workload(w *cbWorld, recoveryHeavy bool) {
 		if !q.done {
 			w.r.Fail("no-return", "request %d never returned", q.id)
 		}
-		if q.outcome == "" {
+		if q.outcome == "" && q.task != w.logPanicTask {
 			w.r.Fail("unanswered", "request %d reached neither the handler nor the fallback", q.id)
 		}
 		if q.outcome == "fallback" && q.rec.Status != w.fallbackStatus {
